@@ -23,3 +23,5 @@ func VerifUnorderedSlots(c *Client) int { return 0 }
 func VerifQueueLen(c *Client) (atLeastOnce, exactlyOnce int) { return 0, 0 }
 
 func VerifReadBufSize() int { return 0 }
+
+func VerifNewVolatile() Persistence { return nil }
